@@ -1,18 +1,134 @@
-// C01 / C04 / C11 correspondence probe: drives a real impl::Lexicon of /repo's current tree with the op lines that the
+// C01 / C04 / C11 correspondence probe: drives real impl::Lexicons of /repo's current tree with the op lines that the
 // Lean model drivers (model_c01 / model_c04 / model_c11) also read, and prints the same observation lines.
 // Nodes are named n<k> by order of first appearance (per history); addresses never appear.
 // Lines starting with '@' are implementation-only assertions, lines starting with '#' statistics.
+//
+// One process holds SEVERAL Lexicons (slots 0..7): `lexicon k` makes slot k current (a History is created there at first
+// use), `new` replaces the current slot's History by a fresh one on the free store, `renew` destroys it and constructs
+// the next one IN PLACE, at the same address, with every block the library asks for served from recycled storage (the
+// successor's nodes sit where the predecessor's nodes were).  Node names are per History; the process-wide constants
+// are legitimately shared, anything else answered to two live Lexicons is reported (`#shared`).
+//
+// `placed s i` builds a client-owned type node (impl::extended_type named by Identifier i) at a chosen address: pages
+// mapped 4 KiB, 2 GiB, 4 GiB, 32 GiB, 64 GiB, ... apart (operand nodes are compared by address).
+//
+// A namespace-scope object of this translation unit -- linked BEFORE libipr.a, so initialised before the library's own
+// dynamically initialised objects, if it has any -- uses a Lexicon during static initialisation; main() compares.
 #include <ipr/impl>
 #include <ipr/traversal>
+#include <sys/mman.h>
 #include <algorithm>
+#include <array>
+#include <cstdint>
+#include <cstdio>
+#include <cstdlib>
 #include <deque>
 #include <iostream>
 #include <map>
 #include <memory>
+#include <new>
 #include <sstream>
 #include <stdexcept>
 #include <string>
 #include <vector>
+
+#if defined(__SANITIZE_ADDRESS__)
+#  include <sanitizer/asan_interface.h>
+#else
+#  define ASAN_POISON_MEMORY_REGION(a, s) ((void)(a), (void)(s))
+#  define ASAN_UNPOISON_MEMORY_REGION(a, s) ((void)(a), (void)(s))
+#endif
+
+// ------------------------------------------------------------------------------------ the free store of this process
+// Every block carries a 16-byte header saying where it came from.  Ordinary mode: malloc (checked by ASan).  Recycling
+// mode (in-place Lexicons): size classes of 64 bytes with LIFO free lists, so that what the next Lexicon allocates lies
+// exactly where the destroyed one's nodes lay; a freed block is poisoned until it is handed out again.
+namespace store {
+   constexpr std::size_t header = 16;
+   constexpr std::uint32_t from_malloc = 0x4d414c4cu, from_slab = 0x534c4142u;
+   constexpr std::size_t granule = 64, classes = 65, chunk = std::size_t{1} << 20;
+   struct Head { std::uint32_t origin; std::uint32_t cls; void* next; };
+   static_assert(sizeof(Head) == header);
+   int recycling = 0;                 // > 0: serve from the slabs
+   void* free_list[classes] { };
+   char* bump = nullptr;
+   char* bump_end = nullptr;
+   long recycled = 0, carved = 0;
+
+   void* allocate(std::size_t n)
+   {
+      const std::size_t total = n + header;
+      const std::size_t cls = (total + granule - 1) / granule;
+      if (recycling > 0 and cls < classes) {
+         const std::size_t bytes = cls * granule;
+         char* raw = static_cast<char*>(free_list[cls]);
+         if (raw != nullptr) {
+            free_list[cls] = reinterpret_cast<Head*>(raw)->next;
+            ++recycled;
+         }
+         else {
+            if (bump == nullptr or static_cast<std::size_t>(bump_end - bump) < bytes) {
+               bump = static_cast<char*>(std::malloc(chunk));
+               if (bump == nullptr) throw std::bad_alloc{};
+               bump_end = bump + chunk;
+            }
+            raw = bump;
+            bump += bytes;
+            ++carved;
+         }
+         ASAN_UNPOISON_MEMORY_REGION(raw, bytes);
+         auto h = reinterpret_cast<Head*>(raw);
+         h->origin = from_slab; h->cls = static_cast<std::uint32_t>(cls); h->next = nullptr;
+         ASAN_POISON_MEMORY_REGION(raw, header);
+         return raw + header;
+      }
+      char* raw = static_cast<char*>(std::malloc(total));
+      if (raw == nullptr) throw std::bad_alloc{};
+      auto h = reinterpret_cast<Head*>(raw);
+      h->origin = from_malloc; h->cls = 0; h->next = nullptr;
+      ASAN_POISON_MEMORY_REGION(raw, header);
+      return raw + header;
+   }
+
+   void release(void* p) noexcept
+   {
+      if (p == nullptr) return;
+      char* raw = static_cast<char*>(p) - header;
+      ASAN_UNPOISON_MEMORY_REGION(raw, header);
+      auto h = reinterpret_cast<Head*>(raw);
+      if (h->origin == from_slab) {
+         const std::size_t cls = h->cls;
+         ASAN_POISON_MEMORY_REGION(raw + header, cls * granule - header);
+         h->next = free_list[cls];
+         free_list[cls] = raw;
+      }
+      else if (h->origin == from_malloc) {
+         h->origin = 0;
+         std::free(raw);
+      }
+      else {
+         std::fprintf(stderr, "unifyprobe: operator delete of a block not obtained from operator new (%p)\n", p);
+         std::abort();
+      }
+   }
+
+   struct Recycle {
+      const int saved;
+      explicit Recycle(bool on) : saved{recycling} { recycling = on ? 1 : 0; }
+      ~Recycle() { recycling = saved; }
+   };
+}
+
+void* operator new(std::size_t n) { return store::allocate(n); }
+void* operator new[](std::size_t n) { return store::allocate(n); }
+void* operator new(std::size_t n, const std::nothrow_t&) noexcept { try { return store::allocate(n); } catch (...) { return nullptr; } }
+void* operator new[](std::size_t n, const std::nothrow_t&) noexcept { try { return store::allocate(n); } catch (...) { return nullptr; } }
+void operator delete(void* p) noexcept { store::release(p); }
+void operator delete[](void* p) noexcept { store::release(p); }
+void operator delete(void* p, std::size_t) noexcept { store::release(p); }
+void operator delete[](void* p, std::size_t) noexcept { store::release(p); }
+void operator delete(void* p, const std::nothrow_t&) noexcept { store::release(p); }
+void operator delete[](void* p, const std::nothrow_t&) noexcept { store::release(p); }
 
 using namespace ipr;
 
@@ -51,22 +167,110 @@ namespace {
       return s;
    }
 
+   // -- Client-built operand nodes at chosen addresses.  Twelve pages at these distances from one base; page k of the table
+   //    holds, for each of the 8 Lexicon slots (a lane of 512 bytes), 4 nodes 128 bytes apart.  Slot s of `placed` is page
+   //    s % 12, position s / 12: nodes of one lane are 128 bytes, 4 KiB, 2 GiB, 4 GiB, 32 GiB, k * 64 GiB apart.
+   using Placed_type = impl::extended_type;
+   constexpr std::uintptr_t KiB = 1024, GiB = std::uintptr_t{1} << 30;
+   constexpr std::uintptr_t page_offset[] = { 0, 4 * KiB, 2 * GiB, 4 * GiB, 4 * GiB + 4 * KiB, 32 * GiB, 32 * GiB + 4 * KiB, 64 * GiB,
+                                              64 * GiB + 4 * KiB, 96 * GiB, 128 * GiB, 256 * GiB };
+   constexpr int placed_pages = sizeof(page_offset) / sizeof(page_offset[0]);
+   constexpr int placed_positions = 4, placed_slots = placed_pages * placed_positions, lexicon_slots = 8;
+   constexpr std::size_t lane_bytes = 512, position_bytes = lane_bytes / placed_positions;
+   static_assert(sizeof(Placed_type) <= position_bytes and lane_bytes * lexicon_slots <= 4096);
+
+   struct Far_pages {
+      std::uintptr_t base = 0;      // 0: the hints were refused; nodes then come from the free store
+      bool tried = false;
+      static void* page_at(std::uintptr_t where)
+      {
+         int flags = MAP_PRIVATE | MAP_ANONYMOUS | MAP_NORESERVE;
+#ifdef MAP_FIXED_NOREPLACE
+         flags |= MAP_FIXED_NOREPLACE;
+#endif
+         void* p = mmap(reinterpret_cast<void*>(where), 4096, PROT_READ | PROT_WRITE, flags, -1, 0);
+         if (p == MAP_FAILED) return nullptr;
+         if (reinterpret_cast<std::uintptr_t>(p) != where) { munmap(p, 4096); return nullptr; }
+         return p;
+      }
+      void map()
+      {
+         if (tried) return;
+         tried = true;
+         // inside the application range of the address space under AddressSanitizer too (its shadow ends below 0x10007fff8000)
+         for (std::uintptr_t candidate : { std::uintptr_t{0x200000000000}, std::uintptr_t{0x300000000000}, std::uintptr_t{0x400000000000},
+                                           std::uintptr_t{0x180000000000}, std::uintptr_t{0x500000000000}, std::uintptr_t{0x080000000000} }) {
+            int k = 0;
+            for (; k < placed_pages; ++k)
+               if (page_at(candidate + page_offset[k]) == nullptr) break;
+            if (k == placed_pages) { base = candidate; break; }
+            for (int j = 0; j < k; ++j) munmap(reinterpret_cast<void*>(candidate + page_offset[j]), 4096);
+         }
+         std::cout << "#placed honoured=" << (base != 0 ? 1 : 0) << " pages=" << placed_pages << " slots=" << placed_slots << '\n';
+      }
+      void* address(int lane, int slot)
+      {
+         map();
+         if (base == 0) return nullptr;
+         return reinterpret_cast<void*>(base + page_offset[slot % placed_pages] + lane * lane_bytes + (slot / placed_pages) * position_bytes);
+      }
+   };
+   Far_pages far_pages;
+   long placed_far = 0, placed_fallback = 0;
+
+   struct History;
+   History* live_histories[lexicon_slots] { };
+   std::string notes;            // '#' lines about the answer being printed (flushed after it)
+
    struct History {
+      const int lane;
       impl::Lexicon lex;
       std::deque<impl::Module> modules;
       std::deque<impl::ref_sequence<ipr::Type>> client_seqs;       // sequences a client keeps alive (get_product(const Sequence&))
       std::vector<Obj> names;
       std::map<Obj, int> index;
       int fresh_counter = 0;
+      Placed_type* placed[placed_slots] { };
+      bool placed_used[placed_slots] { };
+      std::vector<std::unique_ptr<Placed_type>> placed_elsewhere;
+
+      explicit History(int l) : lane{l} { live_histories[lane] = this; }
+      History(const History&) = delete;
+      ~History()
+      {
+         if (live_histories[lane] == this) live_histories[lane] = nullptr;
+         for (auto p : placed)
+            if (p != nullptr) p->~Placed_type();
+      }
 
       std::string name(Obj o)
       {
+         store::Recycle bookkeeping { false };       // the probe's own tables never take recycled storage
          auto it = index.find(o);
          if (it == index.end()) {
             it = index.emplace(o, static_cast<int>(names.size())).first;
             names.push_back(o);
+            // answered to another live Lexicon too?  (legitimate for the process-wide constants only: judged by the check)
+            for (int k = 0; k < lexicon_slots; ++k)
+               if (live_histories[k] != nullptr and live_histories[k] != this and live_histories[k]->index.count(o) != 0)
+                  notes += "#shared n" + std::to_string(it->second) + " " + std::to_string(k) + "\n";
          }
          return "n" + std::to_string(it->second);
+      }
+
+      // A client-built type node at placement slot s (or on the free store when the address hints were refused).
+      const ipr::Type& place(int s, const ipr::Identifier& id)
+      {
+         if (s < 0 or s >= placed_slots or placed_used[s]) throw Bad{};
+         placed_used[s] = true;
+         if (void* where = far_pages.address(lane, s)) {
+            placed[s] = new (where) Placed_type(id);
+            ++placed_far;
+            return *placed[s];
+         }
+         ++placed_fallback;
+         placed_elsewhere.push_back(std::make_unique<Placed_type>(id));
+         return *placed_elsewhere.back();
       }
       std::string name(const ipr::Node& n) { return name(Obj{Kind::Node, &n}); }
       std::string name(const ipr::Logogram& n) { return name(Obj{Kind::Logo, &n}); }
@@ -353,6 +557,14 @@ namespace {
          default: throw Bad{};
          }
       }
+      // a client-built type node at a chosen address (ordinary operand of everything above)
+      if (op == "placed") {
+         need(2);
+         if (w[1].empty() or w[1].size() > 3) throw Bad{};
+         for (char c : w[1]) if (c < '0' or c > '9') throw Bad{};
+         auto& id = h.node<ipr::Identifier>(w[2]);
+         return h.name(h.place(std::stoi(w[1]), id));
+      }
 
       // -- accessors
       if (op == "main_variant") {
@@ -390,12 +602,179 @@ namespace {
    }
 }
 
+// ------------------------------------------------------------------------------------ use during static initialisation
+namespace {
+   // What a client sees that uses a Lexicon from the initialiser of a namespace-scope object.  The spellings to ask for come
+   // from the environment (UNIFY_EARLY_WORDS: hex words separated by commas -- the candidates for reserved words the check
+   // reads out of the sources).  The Lexicon stays alive: main() asks it the same questions again.
+   struct Early {
+      using Row = std::array<const void*, 7>;      // string, identifier, identifier of the String, logogram, linkage, linkage of the String, as-type
+      std::vector<std::u8string> words;
+      std::vector<Row> rows;
+      std::vector<const void*> types;
+      impl::Lexicon* lex = nullptr;
+      bool builtin_names = true, constant_names = true;
+
+      static Row ask(impl::Lexicon& L, const std::u8string& w)
+      {
+         auto& s = L.get_string(w);
+         auto& id = L.get_identifier(w);
+         return Row{ &s, &id, &L.get_identifier(s), &L.get_logogram(s), &L.get_linkage(w), &L.get_linkage(s), &L.get_as_type(id) };
+      }
+      // a few type-constructor requests (C01) and successive qualifications (C11)
+      static std::vector<const void*> ask_types(impl::Lexicon& L)
+      {
+         std::vector<const void*> out;
+         auto& i = L.int_type();
+         auto& p = L.get_pointer(i);
+         const auto C = L.const_qualifier(), V = L.volatile_qualifier();
+         auto& c = L.get_qualified(C, i);
+         auto& cv = L.get_qualified(V, c);
+         auto& cv2 = L.get_qualified(C | V, i);
+         auto& vc = L.get_qualified(C, L.get_qualified(V, i));
+         impl::Warehouse<ipr::Type> wh;
+         wh.push_back(i); wh.push_back(L.char_type());
+         auto& prod = L.get_product(wh);
+         auto& f = L.get_function(prod, p);
+         auto& f2 = L.get_function(prod, p, L.false_value(), impl::cxx_transfer());
+         auto& a = L.get_array(cv, L.get_literal(i, u8"3"));
+         auto& m = L.get_ptr_to_member(L.get_as_type(L.get_identifier(u8"__early_class")), f);
+         for (const ipr::Node* n : std::initializer_list<const ipr::Node*>{ &p, &L.get_reference(p), &L.get_rvalue_reference(c), &c, &cv, &cv2, &vc,
+                                                                            &prod, &f, &f2, &a, &m, &cv.main_variant(), &vc.main_variant() })
+            out.push_back(n);
+         out.push_back(reinterpret_cast<const void*>(static_cast<std::uintptr_t>(cv.qualifiers())));
+         out.push_back(reinterpret_cast<const void*>(static_cast<std::uintptr_t>(vc.qualifiers())));
+         return out;
+      }
+      static bool names_ok(impl::Lexicon& L, bool constants)
+      {
+         bool ok = true;
+         if (not constants) {
+            const ipr::Type* all[] = { &L.void_type(), &L.bool_type(), &L.char_type(), &L.int_type(), &L.long_long_type(), &L.double_type(),
+                                       &L.ellipsis_type(), &L.typename_type(), &L.class_type(), &L.namespace_type(), &L.ulong_long_type() };
+            for (auto t : all) {
+               auto id = util::view<ipr::Identifier>(t->name());
+               ok = ok and id != nullptr and &L.get_identifier(id->string().characters()) == id and &L.get_as_type(*id) == t;
+            }
+         }
+         else {
+            const ipr::Symbol* all[] = { &L.false_value(), &L.true_value(), &L.nullptr_value(), &L.default_value(), &L.delete_value() };
+            for (auto c : all) {
+               auto id = util::view<ipr::Identifier>(c->name());
+               ok = ok and id != nullptr and &L.get_identifier(id->string().characters()) == id;
+            }
+            auto& t = L.get_this(L.get_pointer(L.int_type()));
+            ok = ok and &t.name() == &L.get_identifier(u8"this");
+            ok = ok and &L.get_label(L.get_identifier(u8"default")) == &L.default_value();
+         }
+         return ok;
+      }
+
+      Early()
+      {
+         const char* e = std::getenv("UNIFY_EARLY_WORDS");
+         if (e == nullptr) return;
+         std::string tok;
+         for (const char* p = e; ; ++p) {
+            if (*p == ',' or *p == 0) {
+               if (not tok.empty()) { try { words.push_back(unhex(tok)); } catch (const Bad&) { } }
+               tok.clear();
+               if (*p == 0) break;
+            }
+            else tok += *p;
+         }
+         lex = new impl::Lexicon;
+         for (auto& w : words) rows.push_back(ask(*lex, w));
+         types = ask_types(*lex);
+         builtin_names = names_ok(*lex, false);
+         constant_names = names_ok(*lex, true);
+      }
+   };
+   const Early early;
+
+   // main(): the same questions again -- of the same Lexicon (same node required, whatever the spelling), and of fresh Lexicons
+   // (a spelling two fresh Lexicons answer with one node is a process-wide constant: it had to be that node already).
+   void report_early()
+   {
+      std::cout << "#main-reached\n";
+      if (early.lex == nullptr) { std::cout << "#early words=0\n"; return; }
+      impl::Lexicon a, b;
+      const char* what[] = { "string", "identifier", "identifier_of_string", "logogram", "linkage", "linkage_of_string", "as_type" };
+      bool same[7] = { true, true, true, true, true, true, true }, constant[7] = { true, true, true, true, true, true, true };
+      long shared[7] = { };
+      std::string diff;
+      for (std::size_t k = 0; k < early.words.size(); ++k) {
+         const auto& w = early.words[k];
+         const Early::Row t = early.rows[k], g = Early::ask(*early.lex, w), x = Early::ask(a, w), y = Early::ask(b, w);
+         for (int f = 0; f < 7; ++f) {
+            if (t[f] != g[f]) { same[f] = false; if (diff.size() < 600) diff += std::string(" again:") + what[f] + ":" + hex(w); }
+            if (x[f] == y[f]) {                       // process-wide constant
+               ++shared[f];
+               if (t[f] != x[f]) { constant[f] = false; if (diff.size() < 600) diff += std::string(" constant:") + what[f] + ":" + hex(w); }
+            }
+         }
+      }
+      std::cout << "#early words=" << early.words.size();
+      for (int f = 0; f < 7; ++f) std::cout << ' ' << what[f] << "_constants=" << shared[f];
+      std::cout << '\n';
+      if (not diff.empty()) std::cout << "#early-diff" << diff << '\n';
+      for (int f = 0; f < 7; ++f) {
+         std::cout << "@early_same_lexicon_" << what[f] << '=' << (same[f] ? 1 : 0) << '\n';
+         std::cout << "@early_constant_" << what[f] << '=' << (constant[f] ? 1 : 0) << '\n';
+      }
+      std::cout << "@early_builtin_names=" << (early.builtin_names and Early::names_ok(*early.lex, false) ? 1 : 0) << '\n';
+      std::cout << "@early_constant_names=" << (early.constant_names and Early::names_ok(*early.lex, true) ? 1 : 0) << '\n';
+      const auto now = Early::ask_types(*early.lex);
+      std::cout << "@early_type_same_lexicon=" << (now == early.types ? 1 : 0) << '\n';
+      const auto& t = early.types;
+      const bool normal = t.size() == 16 and t[4] == t[5] and t[4] == t[6] and t[12] == &early.lex->int_type() and t[13] == t[12]
+         and t[14] == t[15] and t[14] == reinterpret_cast<const void*>(static_cast<std::uintptr_t>(early.lex->const_qualifier() | early.lex->volatile_qualifier()));
+      std::cout << "@early_qualified_normal=" << (normal and now == early.types ? 1 : 0) << '\n';
+   }
+
+   alignas(History) unsigned char in_place_storage[lexicon_slots][sizeof(History)];
+   struct Slot { History* h = nullptr; bool in_place = false; };
+   Slot slots[lexicon_slots];
+
+   void destroy(Slot& s)
+   {
+      if (s.h == nullptr) return;
+      store::Recycle r { s.in_place };
+      if (s.in_place) s.h->~History(); else delete s.h;
+      s.h = nullptr;
+   }
+   History& create(int k, bool in_place)
+   {
+      Slot& s = slots[k];
+      if (in_place) {
+         destroy(s);                                                   // same address: the predecessor has to go first
+         store::Recycle r { true };
+         s.h = new (in_place_storage[k]) History(k);
+      }
+      else {
+         History* old = s.h;                                            // (as before: the successor exists before the predecessor goes)
+         const bool old_in_place = s.in_place;
+         s.h = nullptr;
+         History* fresh = new History(k);
+         s.h = old; s.in_place = old_in_place;
+         destroy(s);
+         s.h = fresh;
+         live_histories[k] = fresh;
+      }
+      s.in_place = in_place;
+      return *s.h;
+   }
+}
+
 int main()
 {
    std::ios::sync_with_stdio(false);
-   std::unique_ptr<History> h = std::make_unique<History>();
+   report_early();
+   int cur = 0;
+   create(0, false);
    std::string line;
    while (std::getline(std::cin, line)) {
+      std::cout.flush();                  // whatever the previous line printed is out before this one can crash or hang
       auto w = words(line);
       if (w.empty()) continue;
       try {
@@ -412,24 +791,44 @@ int main()
          }
          if (w[0] == "cfgbuiltin" and w.size() == 2) {
             auto s = unhex(w[1]);
-            std::cout << "ok\n@builtin=" << (h->builtin(s) != nullptr ? 1 : 0) << '\n';
+            std::cout << "ok\n@builtin=" << (slots[cur].h->builtin(s) != nullptr ? 1 : 0) << '\n';
             continue;
          }
-         if (w[0] == "new" and w.size() == 1) {
-            h = std::make_unique<History>();
+         if (w[0] == "lexicon" and w.size() == 2) {
+            if (w[1].size() != 1 or w[1][0] < '0' or w[1][0] >= '0' + lexicon_slots) throw Bad{};
+            cur = w[1][0] - '0';
+            if (slots[cur].h == nullptr) create(cur, false);
+            std::cout << "ok\n";
+            continue;
+         }
+         if ((w[0] == "new" or w[0] == "renew") and w.size() == 1) {
+            create(cur, w[0] == "renew");
             std::cout << "ok\n";
             continue;
          }
          if (w[0] == "stat" and w.size() == 1) {
-            std::cout << "# names=" << h->names.size() << '\n';
+            std::cout << "# names=" << slots[cur].h->names.size() << " recycled=" << store::recycled << " carved=" << store::carved
+                      << " placed_far=" << placed_far << " placed_fallback=" << placed_fallback << '\n';
             continue;
          }
-         std::cout << run(*h, w) << '\n';
+         std::string answer;
+         {
+            store::Recycle r { slots[cur].in_place };
+            answer = run(*slots[cur].h, w);
+         }
+         std::cout << answer << '\n' << notes << std::flush;       // (flushed: a crash or a hang in the next request must not lose this answer)
+         notes.clear();
+         continue;
       }
       catch (const Bad&) { std::cout << "bad-op\n"; }
       catch (const std::logic_error&) { std::cout << "!L\n"; }
       catch (const std::exception& e) { std::cout << "!X(" << typeid(e).name() << ")\n"; }
+      std::cout << notes << std::flush;
+      notes.clear();
    }
+   std::cout << "# recycled=" << store::recycled << " carved=" << store::carved << " placed_far=" << placed_far
+             << " placed_fallback=" << placed_fallback << '\n';
+   for (int k = lexicon_slots - 1; k >= 0; --k) destroy(slots[k]);
    std::cout.flush();
    return 0;
 }
